@@ -582,6 +582,7 @@ func calculateHashes(numLeaves uint64, delHashes []Hash, proof Proof) (hashAndPo
 		// row is lower than totalRows.
 		maxPos, _ := maxPositionAtRow(row, totalRows, numLeaves)
 		for provePos > maxPos {
+			verifPoint("calculateHashes:row-advance")
 			row++
 			maxPos, _ = maxPositionAtRow(row, totalRows, numLeaves)
 		}
